@@ -15,7 +15,7 @@ import z3
 from . import ops
 from .ops import LAM
 from .ops import Unsupported
-from .values import (Sym, SChar, SSeq, SSet, Choice, Obj, ExcVal, Opaque, I, R, B, AI, AR, AB, is_symbolic)
+from .values import (Sym, SChar, SSeq, SSet, SDict, RandVal, Choice, Obj, ExcVal, Opaque, I, R, B, AI, AR, AB, is_symbolic)
 from .speclib import SumI, SumR
 
 
@@ -138,7 +138,7 @@ def m_list(it, fr, x=()):
             return list(range(x.lo, x.hi, x.step))
         return range_to_seq(x, 'list')
     if isinstance(x, SSet):
-        raise Unsupported('list(symbolic set)')
+        return enumerate_set(it, x, ordered=False)
     items = it.concrete_items(x)
     if items is None:
         raise Unsupported('list(%r)' % (x,))
@@ -163,7 +163,7 @@ def m_set(it, fr, x=()):
             return set(range(x.lo, x.hi, x.step))
         j = z3.Int('j!st')
         lo, hi = ops.z3int(x.lo), ops.z3int(x.hi)
-        return SSet(LAM(j, z3.And(j >= lo, j < hi)), 'int', z3.simplify(z3.If(hi > lo, hi - lo, 0)))
+        return SSet(LAM(j, z3.And(j >= lo, j < hi)), 'int', z3.simplify(z3.If(hi > lo, hi - lo, 0)), src=('range', lo, hi))
     if isinstance(x, SSeq):
         j = z3.Int('j!st')
         k = z3.Int('k!st')
@@ -216,7 +216,26 @@ def m_max(it, fr, *a):
     return r
 
 
+def enumerate_set(it, x, ordered):
+    """list(s) / sorted(s) of a symbolic set of ints: a duplicate-free enumeration of exactly the members
+    (strictly increasing when sorted); length = cardinality"""
+    r = it.fresh_seq('enum', 'list', x.ek)
+    n = ops.length(x)
+    it.assume(r.n == ops.z3int(n))
+    j = z3.Int('j!so')
+    k = z3.Int('k!so')
+    it.pc.append(z3.ForAll([j], z3.Implies(z3.And(j >= 0, j < r.n), z3.Select(x.pred, z3.Select(r.arr, j)))))
+    if ordered:
+        it.pc.append(z3.ForAll([j, k], z3.Implies(z3.And(j >= 0, j < k, k < r.n), z3.Select(r.arr, j) < z3.Select(r.arr, k))))
+    else:
+        it.pc.append(z3.ForAll([j, k], z3.Implies(z3.And(j >= 0, j < k, k < r.n), z3.Select(r.arr, j) != z3.Select(r.arr, k))))
+    it.trusted_used.add('list(set)/sorted(set): duplicate-free enumeration of the members, length = cardinality')
+    return r
+
+
 def m_sorted(it, fr, x):
+    if isinstance(x, SSet):
+        return enumerate_set(it, x, ordered=True)
     if isinstance(x, SSet):
         # sorted(set): a strictly increasing enumeration of the members
         r = it.fresh_seq('sorted', 'list', x.ek)
@@ -470,6 +489,10 @@ def m_product(it, fr, *seqs, repeat=1):
 def value_method(it, fr, base, name, args, kwargs):
     """returns (result, new_base, mutated)"""
     RangeVal, EnumVal, Raised = _interp_types()
+    if isinstance(base, RandVal):
+        if name == 'shuffle':
+            raise Unsupported('shuffle handled by the interpreter')
+        return rand_method(it, fr, base, name, args, kwargs), base, False
     # ---- strings
     if isinstance(base, (str, SChar)) or (isinstance(base, SSeq) and base.kind == 'str'):
         return str_method(it, fr, base, name, args, kwargs)
@@ -630,6 +653,58 @@ def seq_method(it, fr, base, name, args, kwargs):
     raise Unsupported('method %s on symbolic sequence' % name)
 
 
+def m_Random(it, fr, *a):
+    it.trusted_used.add('random.Random: sample = k distinct members of a sequence population, shuffle = permutation, randint in [a,b], random in [0,1)')
+    return RandVal()
+
+
+def rand_method(it, fr, base, name, args, kwargs):
+    RangeVal, EnumVal, Raised = _interp_types()
+    if name == 'seed':
+        return None
+    if name == 'random':
+        u = it.fresh('u', 'real')
+        it.assume(z3.And(u.e >= 0, u.e < 1))
+        return u
+    if name == 'randint':
+        a, b = ops.z3int(args[0]), ops.z3int(args[1])
+        ops._raise_if(b < a, 'ValueError')
+        r = it.fresh('randint', 'int')
+        it.assume(z3.And(r.e >= a, r.e <= b))
+        return r
+    if name == 'sample':
+        pop, k = args[0], args[1]
+        if isinstance(pop, (SSet, set, frozenset, dict)):
+            raise Raised(it.mk_exc('TypeError'))        # Python >= 3.11: population must be a sequence
+        if is_symbolic(k):
+            raise Unsupported('sample of symbolic size')
+        s = ops.to_sseq(pop) if not isinstance(pop, SSeq) else pop
+        ops._raise_if(s.n < k, 'ValueError')
+        idx = [it.fresh('pick', 'int') for _ in range(k)]
+        for i, x in enumerate(idx):
+            it.assume(z3.And(x.e >= 0, x.e < s.n))
+            for y in idx[:i]:
+                it.assume(x.e != y.e)
+        return [s.at(x.e) for x in idx]
+    if name == 'shuffle':
+        raise Unsupported('shuffle must be applied to a variable')
+    raise Unsupported('random.Random.%s' % name)
+
+
+def shuffled(it, s):
+    """rand.shuffle(x): x becomes a permutation of its former content (same length, bijective index map)"""
+    s = ops.to_sseq(s)
+    r = it.fresh_seq('shuf', s.kind, s.ek)
+    it.assume(r.n == s.n)
+    pi = z3.Const(it.fresh_name('pi'), AI)
+    j = z3.Int('j!sh')
+    k = z3.Int('k!sh')
+    it.pc.append(z3.ForAll([j], z3.Implies(z3.And(j >= 0, j < s.n), z3.And(z3.Select(pi, j) >= 0, z3.Select(pi, j) < s.n,
+                                                                             z3.Select(r.arr, j) == z3.Select(s.arr, z3.Select(pi, j) + s.off)))))
+    it.pc.append(z3.ForAll([j, k], z3.Implies(z3.And(j >= 0, j < k, k < s.n), z3.Select(pi, j) != z3.Select(pi, k))))
+    return r
+
+
 # --------------------------------------------------------------------------- registry
 def build_models():
     M = {}
@@ -642,6 +717,6 @@ def build_models():
                  (np.power, m_np_power), (np.mod, m_np_mod), (np.sqrt, m_np_sqrt), (np.exp, m_np_exp),
                  (np.log, m_np_log), (np.array, m_np_array),
                  (math.log, m_math_log), (math.floor, m_floor), (math.ceil, m_ceil),
-                 (_copy.deepcopy, m_deepcopy), (_time.time, m_time), (itertools.product, m_product)]:
+                 (_copy.deepcopy, m_deepcopy), (_time.time, m_time), (itertools.product, m_product), (_random.Random, m_Random)]:
         M[f] = m
     return M
